@@ -213,6 +213,12 @@ def discharge(site, facts=None):
         pi = peel(ei, through_try=False)
         if pi.k != "agg" and known_ge(body, bb, lenc, ei):
             return "position bounded by this container's len()"
+        if pi.k == "agg" and pi.adt in ("std::ops::Range", "std::ops::RangeTo") and k == "slice:drain":
+            start = pi.args[0] if pi.adt == "std::ops::Range" else None
+            end = pi.args[1] if pi.adt == "std::ops::Range" else pi.args[0]
+            ps = peel(start, through_try=False) if start is not None else None
+            if known_ge(body, bb, lenc, end) and (ps is None or (ps.k == "const" and ps.v == 0) or known_ge(body, bb, end, start)):
+                return "drained range ends at a value rounded down from this container's len()"
         return None
     if k == "divzero":
         (a,) = site.operands
